@@ -159,7 +159,7 @@ fn c15_index_in_bounds() {
     }
 }
 
-// @ob id=O15.2 props=C15 tier=quick kind=lemma fn="spec: s_rook_moves,s_bishop_moves (frame)" desc="code-independent frame lemma: the ray-walk result depends only on the occupancy of the relevant squares: walk(sq,occ) == walk(sq, occ & relevant(sq)) for all sq, occ — lifts the exhaustive subset enumeration to all 2^64 occupancies"
+// @ob id=O15.2 props=C15 tier=quick kind=lemma cache=yes fn="spec: s_rook_moves,s_bishop_moves (frame)" desc="code-independent frame lemma: the ray-walk result depends only on the occupancy of the relevant squares: walk(sq,occ) == walk(sq, occ & relevant(sq)) for all sq, occ — lifts the exhaustive subset enumeration to all 2^64 occupancies"
 #[kani::proof]
 #[kani::unwind(9)]
 fn c15_spec_frame() {
